@@ -12,7 +12,11 @@ def driver_args(tier, seed, phase):
 
 RULE = ("(round) catalogue of cache sizes around the 128-entry block (0,1,2,127..129,256,257), entries expiring before the "
         "dump / between dump and load, lazy entries, messages of 10-60 KB incl. the 128 x 10 KB cache of finding F11 and "
-        "two ~512 KB entries whose size bound is exactly at / one below / one above the 1 MiB limit, via the direct calls, "
+        "two ~512 KB entries whose size bound is exactly at / one below / one above the 1 MiB limit, single large answers "
+        "(entries of 40, 60, 70, 100, 200, 300 KiB, alone and among ordinary ones before and after; the oracle demands that every "
+        "live entry reloads without error whatever the block constant is), the 0-entries cache through the real callers with an "
+        "earlier dump on disk (dump_file: Close -> [restart] -> GET /flush -> Close -> restart must load nothing; same instance or "
+        "restarted, extra empty restarts, items stored after the flush), via the direct calls, "
         "the /dump + /load_dump handlers and Args.DumpFile (Close -> file -> NewCache), then seeded random caches of 0-300 "
         "items with random ages, expiries and whole-second / last-nanosecond boundaries; "
         "(load) hand-described plaintexts (valid, empty, expired, undecodable blocks, bad DNS messages, announced lengths at "
@@ -22,7 +26,7 @@ RULE = ("(round) catalogue of cache sizes around the 128-entry block (0,1,2,127.
         "plaintexts cut or not; (fuzz) bit flips, overwritten spans, random files, gzip header + random deflate data, "
         "appended garbage, concatenated dumps, gzip of random plaintext, other header names - each loaded in a worker "
         "process under a 30 s watchdog with the allocation measured; (serve) questions asked through Exec to the first "
-        "cache and to the one reloaded through the HTTP handlers. "
+        "cache and to the one reloaded through the HTTP handlers, one 60-110 KB answer per cache. "
         "Non-trivial: a round trip that loads something, has several blocks or drops items; a load of more than one "
         "segment or of a cut file; every fuzz case; a serve case answered from the reloaded cache. "
         "distinct = distinct Gallina literal")
@@ -31,7 +35,7 @@ ASSUMPTIONS = [
     "protobuf-go: Unmarshal(Marshal(block)) = block (premise Hproto) and len(Marshal(block)) <= sum over entries of proto.Size(entry)+16 (premise Hsize; checked on every block of every real dump)",
     "klauspost gzip: a complete file decompresses to its header name and plaintext and ends with io.EOF (premise Hgz); a strict prefix either fails in NewReader or yields a prefix of the plaintext followed by an error that is not io.EOF (premise Hcut; checked on every cut case: pfx_ok and the observed end status)",
     "io.ReadFull as modelled by Model.Dump.read_block: io.EOF only when nothing was read and the stream ended cleanly",
-    "every dumped entry alone fits a block: proto.Size(entry)+16 <= 1 MiB (premise Hfit; DNS messages are at most 64 KiB) - a single larger entry would still be written in a block the loader refuses",
+    "every dumped entry alone fits a block: proto.Size(entry)+16 <= dumpMaximumBlockLength = 1 MiB (premise Hfit). writeDump only splits a non-empty block, so a single larger entry is still written as a block the loader refuses. An entry is the message packed WITHOUT name compression + key + times, so it can exceed the 64 KiB wire size (230-record TXT RRset: 62 KB -> 73.5 KB; round trips with entries up to 300 KiB are in the run); only a pathological answer (thousands of records under a ~255-byte owner name) reaches 1 MiB",
     "one clock reading per dump and per load (the code calls time.Now() per entry in Store; outcomes differ only for entries expiring while the load runs); the target cache has room for all entries (eviction is C11's subject); stored <= now and ages below 2^32 s (uint32 conversion, float64 seconds exact below about 4e6 s)",
     "absence of panics, hangs and unbounded allocation inside gzip / protobuf / miekg on arbitrary bytes is observed by the fuzz cases (worker process, watchdog, runtime.MemStats), not proved; the model proves termination and the 1 MiB bound of the block reader's own allocations",
 ]
